@@ -44,7 +44,7 @@ def _addr(line):
 
 class ScriptedPeer(object):
     def __init__(self, sock, script=None, lmtp=False, context=None, pipelining=True, auth=False,
-                 size=None, eightbit=True, name='mx', tag_replies=True, tls_immediately=False):
+                 size=None, eightbit=True, name='mx', tag_replies=True, tls_immediately=False, eightbit_after_tls=None):
         self.sock = sock
         self.script = dict(script or {})
         self.lmtp = lmtp
@@ -53,6 +53,7 @@ class ScriptedPeer(object):
         self.auth = auth
         self.size = size
         self.eightbit = eightbit
+        self.eightbit_after_tls = eightbit if eightbit_after_tls is None else eightbit_after_tls
         self.tls_immediately = tls_immediately
         self.buf = b''
         self.log = []                 # (stage, outcome)
@@ -185,7 +186,7 @@ class ScriptedPeer(object):
             word = up.split(b' ', 1)[0]
             if word in (b'EHLO', b'LHLO'):
                 exts = ['mx.test']
-                if self.eightbit:
+                if (self.eightbit_after_tls if self.tls else self.eightbit):
                     exts.append('8BITMIME')
                 if self.pipelining:
                     exts.append('PIPELINING')
